@@ -180,6 +180,26 @@ def ref_readlist(bits, pos, ts):
     return ("ok", "[" + ",".join(vals) + "]", p)
 
 
+def _kw_pairs(kws):
+    """'w=4,r=8s' -> [('w', 4), ('r', '8')] in the order given (a trailing s = passed as a str)."""
+    out = []
+    for item in ([] if kws == "-" else kws.split(",")):
+        k, v = item.split("=")
+        out.append((k, v[:-1] if v.endswith("s") else int(v)))
+    return out
+
+
+def _resolve_kw(toks, kws):
+    """The token list with every keyword length replaced by the value actually passed."""
+    vals = {k: int(v) for k, v in _kw_pairs(kws)}
+    out = []
+    for t in ([] if toks == "-" else toks.split(",")):
+        if ":" in t and t.split(":")[1] in vals:
+            t = t.split(":")[0] + ":" + str(vals[t.split(":")[1]])
+        out.append(t)
+    return out
+
+
 def _occ(data, pat, start, end, aligned):
     m = len(pat)
     return [p for p in range(start, end - m + 1) if data[p:p + m] == pat and (not aligned or p % 8 == 0)]
@@ -212,6 +232,14 @@ def ref_step(st, opf):
         if r[0] != "ok":
             return same(r[0])
         return (bits, [(r[1], r[2] if op.startswith("read") else pos)])
+    if op in ("readlistK", "peeklistK"):
+        # lengths come from keywords: consumption is computed from the values passed in THIS call
+        r = ref_readlist(bits, pos, _resolve_kw(f[1], f[2]))
+        if r[0] != "ok":
+            return same(r[0])
+        return (bits, [(r[1], r[2] if op.startswith("read") else pos)])
+    if op == "otherK":
+        return same("[]")                                         # acts on another stream (checked through extra)
     if op == "readtoint":
         return same("err")
     if op == "readto":
@@ -530,6 +558,27 @@ def _do(s, opf, extra, operands):
         return _fmt(s.readlist(_toklist(f[1], op.endswith("S"))))
     if op in ("peeklist", "peeklistS"):
         return _fmt(s.peeklist(_toklist(f[1], op.endswith("S"))))
+    if op in ("readlistK", "peeklistK", "otherK"):
+        items = [] if f[1] == "-" else f[1].split(",")
+        kw = dict(_kw_pairs(f[2]))
+        fmt = _toklist(f[1], True) if f[3] in "Sspu" else [_tok_arg(t) for t in items]
+        if f[3] == "s":
+            fmt = ",".join(items)                                 # the plain comma form, no multiplicative factors
+        if op == "readlistK":
+            return _fmt(s.readlist(fmt, **kw))
+        if op == "peeklistK":
+            return _fmt(s.peeklist(fmt, **kw))
+        # otherK: the same format and keywords on a different object with the same contents
+        b = s.bin
+        t = (BitStream if len(opf) % 2 else ConstBitStream)(bin=b) if b else ConstBitStream()
+        if f[3] == "u":
+            t = Bits(bin=b) if b else Bits()
+        try:
+            got = _fmt(t.unpack(fmt, **kw) if f[3] == "u" else (t.peeklist(fmt, **kw) if f[3] == "p" else t.readlist(fmt, **kw)))
+        except Exception as e:                                   # noqa: BLE001
+            got = _err(e)
+        extra.setdefault("other", []).append((opf, b, got, getattr(t, "pos", 0)))
+        return "[]"
     if op == "readto":
         return _fmt(s.readto(B(f[1]), bytealigned=(f[2] == "1")))
     if op == "readtoint":
@@ -713,7 +762,44 @@ def _err(e):
     return "err" if n in DOCUMENTED else n
 
 
+def _collect_global_state():
+    """Every lru_cache and every module-level dict / list / set of the bitstring package, found by scanning (no names
+    assumed), with a snapshot of the containers' contents at import time."""
+    import types
+    caches, containers, seen = [], [], set()
+    for name, mod in list(sys.modules.items()):
+        if not (name == "bitstring" or name.startswith("bitstring.")) or mod is None:
+            continue
+        for attr, obj in list(vars(mod).items()):
+            if isinstance(obj, (dict, list, set)) and not attr.startswith("__") and id(obj) not in seen:
+                seen.add(id(obj))
+                containers.append((obj, type(obj)(obj)))
+            members = [obj]
+            if isinstance(obj, type) and getattr(obj, "__module__", "").startswith("bitstring"):
+                members += [getattr(obj, a, None) for a in list(vars(obj))]
+            for m in members:
+                if callable(getattr(m, "cache_clear", None)) and id(m) not in seen:
+                    seen.add(id(m))
+                    caches.append(m)
+    return caches, containers
+
+
+_GLOBAL_STATE = _collect_global_state()
+
+
+def _reset_global_state():
+    """Each case starts from the package's import-time state, so that a reported case fails on its own."""
+    caches, containers = _GLOBAL_STATE
+    for c in caches:
+        c.cache_clear()
+    for obj, snap in containers:
+        if obj != snap:
+            obj.clear()
+            (obj.extend if isinstance(obj, list) else obj.update)(snap)
+
+
 def execute(line):
+    _reset_global_state()
     f = line.split(SEP)
     if f[1] == "init":
         cls, bits, pos = CLASSES[f[2]], unwire(f[3]), int(f[4])
@@ -789,6 +875,29 @@ def first_failure(line, out):
     return None
 
 
+def _strip_pos(v):
+    """Values of an unpack on a plain Bits carry no position; compare `b:<bits>@…` items by their bits."""
+    import re
+    return re.sub(r"@(0|missing)", "", v)
+
+
+def model_line(line):
+    """The model has no keywords: it gets the token list with the keyword values of each call filled in."""
+    f = line.split(SEP)
+    if f[1] != "hist":
+        return line
+    out = f[:6]
+    for opf in f[6:]:
+        g = opf.split(" ")
+        if g[0] in ("readlistK", "peeklistK"):
+            toks = _resolve_kw(g[1], g[2])
+            opf = ("readlistS " if g[0] == "readlistK" else "peeklistS ") + (",".join(toks) if toks else "-")
+        elif g[0] == "otherK":
+            opf = "peeklistS -"
+        out.append(opf)
+    return SEP.join(out)
+
+
 def oracle(line, out, extra):
     f = line.split(SEP)
     if f[1] == "init":
@@ -803,6 +912,16 @@ def oracle(line, out, extra):
     r = first_failure(line, out)
     if r:
         return r[1]
+    for opf, b, got, tpos in extra.get("other", []):
+        g = opf.split(" ")
+        r = ref_readlist(b, 0, _resolve_kw(g[1], g[2]))
+        exp = r[1] if r[0] == "ok" else r[0]
+        if g[3] == "u":
+            exp = exp.replace("@0", "@0")                         # unpack on Bits: returned Bits have no pos of their own
+        epos = r[2] if (r[0] == "ok" and g[3] not in "pu") else 0
+        if _strip_pos(got) != _strip_pos(exp) or (g[3] != "u" and tpos != epos):
+            return (f"{opf} on a fresh object with contents {wire(b)}: got {got} and pos {tpos}, "
+                    f"expected {exp} and pos {epos}")
     if extra.get("twin"):
         return "a non-stream result depends on pos: " + extra["twin"][0]
     if extra.get("operand"):
@@ -899,6 +1018,62 @@ def _rand_toklist(rng, rem):
     return ",".join(out) if out else "-"
 
 
+KW_TEMPLATES = ["uint:w,hex:r", "uint:width,hex:rest", "bits:a,bin:b", "int:n,int:n,bin:m", "pad:a,uint:b,bits", "bytes:k,bin:w",
+                "bin:w", "hex:r,uint:w,3", "uint:w,ue,bin:r", "bits:a,bits:b,bits:a", "bin,uint:w", "2,bin:m,uint:n"]
+
+
+def _rand_kw_op(rng, rem, tpl=None, order=None):
+    """readlist / peeklist / a second object, with lengths given by keywords.  Templates and keyword names come from a
+    small fixed vocabulary, so the same format string recurs (in one history and across histories) with other values."""
+    tpl = tpl or rng.choice(KW_TEMPLATES)
+    names = []
+    for t in tpl.split(","):
+        if ":" in t and not t.split(":")[1].isdigit() and t.split(":")[1] not in names:
+            names.append(t.split(":")[1])
+    left = max(rem, 0)
+    vals = {}
+    for nm in names:
+        kind = next(t.split(":")[0] for t in tpl.split(",") if ":" in t and t.split(":")[1] == nm)
+        cap = max(left, 0) // (8 if kind == "bytes" else 1)
+        v = rng.choice([0, 1, 2, 3, 4, 5, 7, 8, 12, cap, cap // 2, rng.randint(0, max(cap, 1)), rng.randint(0, cap + 2)])
+        if kind == "hex" and rng.random() < 0.9:
+            v -= v % 4
+        uses = sum(1 for t in tpl.split(",") if ":" in t and t.split(":")[1] == nm)
+        left -= v * uses * (8 if kind == "bytes" else 1)
+        vals[nm] = v
+    if order is None:
+        order = rng.random() < 0.3
+    if order:
+        names = names[::-1]
+    kws = ",".join(f"{nm}={vals[nm]}{'s' if rng.random() < 0.08 else ''}" for nm in names) or "-"
+    r = rng.random()
+    if r < 0.5:
+        return f"readlistK {tpl} {kws} {rng.choice('SSsL')}"
+    if r < 0.8:
+        return f"peeklistK {tpl} {kws} {rng.choice('SSsL')}"
+    return f"otherK {tpl} {kws} {rng.choice('Spu')}"
+
+
+def _kw_history(rng):
+    """One or two format strings used again and again with other keyword values, other keyword orders, on this stream and
+    on a second object, with other operations in between."""
+    cls = rng.choice(STREAMS)
+    bits = rand_bits(rng, rng.choice([16, 24, 32, 33, 40, 47, 48, 64, 80]))
+    pos = rng.choice([0, 0, 0, 1, 4, 8])
+    st = (bits, pos, cls == "BitStream")
+    tpls = rng.sample(KW_TEMPLATES, rng.choice([1, 1, 2]))
+    ops = []
+    for i in range(rng.choice([2, 3, 4, 5, 6, 8, 10])):
+        if i and rng.random() < 0.35:
+            opf = _rand_op(rng, st) if rng.random() < 0.6 else rng.choice(["pos 0", "pos 0", f"pos {rng.randint(0, len(st[0]))}", "bytealign"])
+        else:
+            opf = _rand_kw_op(rng, len(st[0]) - st[1], rng.choice(tpls))
+        ops.append(opf)
+        nbits, allowed = ref_step(st, opf)
+        st = (nbits, allowed[0][1], st[2])
+    return _case(cls, bits, pos, rng.choice(["ctor", "attr"]), ops)
+
+
 def _pattern(rng, bits, frm=0):
     """A pattern that occurs (about two times in three) in bits[frm:]."""
     n = len(bits)
@@ -957,9 +1132,11 @@ def _rand_op(rng, st):
             return "read " + _rand_tok(rng, rem)
         if r < 0.55:
             return "peek " + _rand_tok(rng, rem)
-        if r < 0.85:
+        if r < 0.78:
             return rng.choice(["readlist", "readlistS"]) + " " + _rand_toklist(rng, rem)
-        return rng.choice(["peeklist", "peeklistS"]) + " " + _rand_toklist(rng, rem)
+        if r < 0.90:
+            return rng.choice(["peeklist", "peeklistS"]) + " " + _rand_toklist(rng, rem)
+        return _rand_kw_op(rng, rem)
     if fam < 0.42:
         r = rng.random()
         if r < 0.3:
@@ -1116,6 +1293,17 @@ def gen(rng, tier):
     # 4. random histories
     for _ in range(200000 if big else 24000):
         yield _history(rng)
+    # 4b. lengths from keywords: the same format string again and again with other values / orders / objects
+    for tpl in KW_TEMPLATES:
+        for cls in STREAMS:
+            b = rand_bits(rng, 48)
+            ops = []
+            for j in range(4):
+                ops.append(_rand_kw_op(rng, 48 - 0, tpl, order=(j == 3)))
+                ops.append("pos 0")
+            yield _case(cls, b, 0, "ctor", ops)
+    for _ in range(20000 if big else 2500):
+        yield _kw_history(rng)
     # 5. codes cut short by one to three bits, read through every route
     for _ in range(6000 if big else 500):
         c = rng.choice(VAR)
